@@ -552,6 +552,7 @@ class Harness:
                 if v == "raise":
                     s.log("savecond_raise")
                     raise InjectedFault("save condition")
+                s.log("savecond_eval", "", bool(v))
                 if v:
                     s.log("savecond", "", True)
                 return bool(v)
